@@ -39,6 +39,7 @@ int vsim_peek_master_secret_digest(const ssl_t *ssl, unsigned long long *out)
     *out = vsim_fnv(ssl->sec.masterSecret, SSL_HS_MASTER_SIZE);
     return 0;
 }
+int vsim_peek_master_secret(const ssl_t *ssl, unsigned char out[48]) { if (!ssl) { return -1; } memcpy(out, ssl->sec.masterSecret, 48); return 0; }
 int vsim_load_tls13_psk(sslKeys_t *keys, const unsigned char *key, int keyLen, const unsigned char *id, int idLen,
     int maxEarly, int cipherId)
 {
@@ -73,6 +74,7 @@ int vsim_sid_info(const sslSessionId_t *sid, int *idLen, int *ticketLen, int *ha
 unsigned char *vsim_sid_id_bytes(sslSessionId_t *sid) { return sid->id; }
 void vsim_sid_set_idlen(sslSessionId_t *sid, int n) { sid->idLen = n; }
 unsigned char *vsim_sid_master(sslSessionId_t *sid) { return sid->masterSecret; }
+void vsim_sid_set_cipher(sslSessionId_t *sid, unsigned int cipherId) { sid->cipherId = cipherId; }
 unsigned char *vsim_sid_ticket(sslSessionId_t *sid, int *len)
 {
 #ifdef USE_STATELESS_SESSION_TICKETS
